@@ -1637,7 +1637,6 @@ class AbstractUnit:
                 else:
                     raise ValueError("undefined outlet; must pass outlet when outlets are fixed and multiple are available")
             else:
-                self.outs.append(stream)
                 added_unit = True
         else:
             if isinstance(outlet, AbstractStream):
@@ -1659,8 +1658,9 @@ class AbstractUnit:
                 if inlet.sink is not self:
                     raise ValueError("sink of given inlet must be this object")
             else:
-                inlet = self.outs[inlet]
+                inlet = self.ins[inlet]
             source.outs.replace(stream, inlet)
+        if added_unit: self.outs.append(stream)
     
     @ignore_docking_warnings
     def take_place_of(self, other, discard=False):
